@@ -89,9 +89,24 @@ Definition suffix (name : string) : string :=
                      end
   | None => ""
   end.
+(* os.path.splitext(name)[1]: from the last dot, provided some character before it is
+   not a dot (leading dots belong to the name: ".c" and "..c" have no extension) *)
+Definition splitext_ext (name : string) : string :=
+  match span_dot (rev (list_of_string name)) [] with
+  | Some (e, pre) => if existsb (fun c => negb (Ascii.eqb c ".")) pre
+                     then string_of_list ("."%char :: e) else ""
+  | None => ""
+  end.
+
 Definition is_source_name (exts : list string) (name : string) : bool :=
   existsb (String.eqb (suffix name)) exts.
+Definition has_ext_in (exts : list string) (name : string) : bool :=
+  existsb (String.eqb (splitext_ext name)) exts.
+(* source.is_source_file (after the repair: os.path.splitext, as FileLanguage) *)
 Definition is_source_file (p : path) : bool :=
+  has_ext_in source_extensions (last p "").
+(* ... and before it (pathlib suffix) *)
+Definition is_source_file_before_fix (p : path) : bool :=
   is_source_name source_extensions (last p "").
 
 (* ---------- pathspec.GitIgnoreSpec ---------- *)
